@@ -719,6 +719,19 @@ func (x *X) cutLoop(fr *frame, order []*ssa.BasicBlock, li *loopInfo) {
 		phiVals[phi] = v
 		fr.vals[phi] = v
 	}
+	// inside the body (site assertions) a loop-carried variable denotes its value at the head of the iteration
+	nameFromPhis := func() {
+		for _, phi := range phis {
+			if name := phi.Comment; name != "" && phiVals[phi] != nil {
+				val, t := phiVals[phi], phi.Type()
+				if fr.names == nil {
+					fr.names = map[string]func() TV{}
+				}
+				fr.names[name] = func() TV { return TV{val, t} }
+			}
+		}
+	}
+	nameFromPhis()
 	headState := x.st
 	// automatic invariant of counting loops: the counter does not run below its start,
 	// and stays within the bound when it started within it
@@ -819,6 +832,7 @@ func (x *X) cutLoop(fr *frame, order []*ssa.BasicBlock, li *loopInfo) {
 	for _, phi := range phis {
 		fr.vals[phi] = phiVals[phi]
 	}
+	nameFromPhis()
 }
 
 func isConst(v ssa.Value) bool { _, ok := v.(*ssa.Const); return ok }
